@@ -122,11 +122,19 @@ impl Engine<'_> {
     pub(super) fn op_sdpvtl(&mut self, opcode: u8) -> OpResult {
         let index1 = self.value_stack.pop_usize()?;
         let index2 = self.value_stack.pop_usize()?;
-        let is_parallel = opcode & 1 == 0;
+        let mut is_parallel = opcode & 1 == 0;
         // First set the dual projection vector from *original* points.
         let p1 = self.graphics.zp1().original(index2)?;
         let p2 = self.graphics.zp2().original(index1)?;
         self.graphics.dual_proj_vector = line_vector(p1, p2, is_parallel);
+        // When the original points coincide, FreeType clears the opcode
+        // (and with it the "perpendicular" bit) for the remainder of the
+        // instruction, so the projection vector computed from the current
+        // points below is not rotated either.
+        // See <https://gitlab.freedesktop.org/freetype/freetype/-/blob/57617782464411201ce7bbc93b086c1b4d7d84a5/src/truetype/ttinterp.c#L4696>
+        if p1 == p2 {
+            is_parallel = true;
+        }
         // Now set the projection vector from the *current* points.
         let p1 = self.graphics.zp1().point(index2)?;
         let p2 = self.graphics.zp2().point(index1)?;
@@ -953,6 +961,33 @@ mod tests {
             engine.op_sdpvtl(0x87).unwrap();
             assert_eq!(engine.graphics.dual_proj_vector, Point::new(ONE, 0));
         }
+    }
+
+    /// SDPVTL[1] with coincident *original* points: FreeType falls back to
+    /// the x axis for the dual vector and also drops the perpendicular
+    /// rotation for the projection vector computed from the current points.
+    #[test]
+    fn sdpvtl_coincident_original_points_drop_rotation() {
+        let mut mock = MockEngine::new();
+        let mut engine = mock.engine();
+        let points = &mut [Point::new(0, 0), Point::new(64, 0)].map(|p| p.map(F26Dot6::from_bits));
+        let original =
+            &mut [Point::new(10, 20), Point::new(10, 20)].map(|p| p.map(F26Dot6::from_bits));
+        engine.graphics.zones[1] = Zone {
+            points,
+            original,
+            unscaled: &mut [],
+            flags: &mut [],
+            contours: &[],
+        };
+        engine.value_stack.push(1).unwrap();
+        engine.op_szps().unwrap();
+        engine.value_stack.push(1).unwrap();
+        engine.value_stack.push(0).unwrap();
+        engine.op_sdpvtl(0x87).unwrap();
+        assert_eq!(engine.graphics.dual_proj_vector, X_AXIS);
+        // Not rotated: parallel to the line through the current points
+        assert_eq!(engine.graphics.proj_vector, X_AXIS);
     }
 
     /// Lots of little tests for instructions that just set fields on
